@@ -306,6 +306,9 @@ func (c *Cluster) Owner(table string, row []byte) *Region {
 	return c.ownerLocked(table, row)
 }
 
+// Owner2Locked is ownerLocked for callers that hold the lock themselves (Lock / Unlock).
+func (c *Cluster) Owner2Locked(table string, row []byte) *Region { return c.ownerLocked(table, row) }
+
 func (c *Cluster) ownerLocked(table string, row []byte) *Region {
 	for _, r := range c.Regions {
 		if r.Table == table && r.Contains(row) {
